@@ -886,9 +886,27 @@ fn ext_corpus() -> Vec<Case> {
 
 /// a generated valid case (schema, document, config with name/export options varied)
 pub fn gen_case(rng: &mut Rng, rep: &mut Report) -> Case {
-    let cfg = GenCfg { hostile_text: false, descriptions: rng.chance(1, 3), ..GenCfg::default() };
+    gen_case_with(rng, rep, false)
+}
+
+/// `hier`: the schema has an interface HIERARCHY (`GenCfg::iface_hierarchies`: interfaces implementing interfaces to
+/// depth ≥ 1, diamonds, unrelated hierarchies, objects listing the closure in random order) and the document conditions
+/// fragments (inline and named) on EVERY interface that can apply under one or two composite root fields
+/// (`inject_interface_conditions`). With `hier = false` no additional random choice is drawn.
+pub fn gen_case_with(rng: &mut Rng, rep: &mut Report, hier: bool) -> Case {
+    let cfg = GenCfg { hostile_text: false, descriptions: rng.chance(1, 3), iface_hierarchies: hier, ..GenCfg::default() };
     let schema = gen_schema(rng, &cfg);
     let (mut doc, features) = gen_doc(rng, &schema, &cfg);
+    if hier {
+        for f in iface_shape_features(&schema) {
+            rep.count(&format!("feature:hier:{f}"));
+        }
+        let n = inject_interface_conditions(rng, &schema, &mut doc);
+        if n > 0 {
+            rep.count("feature:hier:injected:fragments-on-every-applicable-interface");
+            rep.count_n("feature:hier:injected:interface-conditions", n as u64);
+        }
+    }
     // extra shapes the shared generator produces rarely: duplicate composite fields with conditioned
     // sub-selections, an alias named __typename
     let mut extra = vec![];
@@ -1032,6 +1050,78 @@ fn inject_conditioned_duplicate(rng: &mut Rng, schema: &SchemaModel, doc: &mut D
         op.vars.push(VarDef { name: var, pos: P::default(), ty: Ty::non_null(Ty::named("Boolean")), default: None, dirs: vec![] });
     }
     true
+}
+
+/// For one or two composite root fields `f` (arguments all optional) of the first operation:
+/// `f { __typename  <one fragment per interface I that has a possible type in common with f's type> }` where each
+/// fragment is `... on I { leaf }`, a spread of a new `fragment InjIk on I { leaf }`, or either of them wrapped in
+/// `... on O { … }` for an object type O of both; `leaf` = a leaf field of I selected without arguments (or `__typename`).
+/// Every object type below `f` thus meets a type condition on EVERY interface it implements (and on interfaces it does
+/// not implement). Same field name ⇒ same signature (pool), no arguments ⇒ the selections merge (5.3.2).
+/// Returns the number of interface conditions added.
+fn inject_interface_conditions(rng: &mut Rng, schema: &SchemaModel, doc: &mut Doc) -> usize {
+    let ok_args = |g: &FieldDef| g.args.iter().all(|a| !a.ty.is_non_null() || a.default.is_some());
+    let mut new_frags: Vec<FragDef> = vec![];
+    let mut added = 0usize;
+    {
+        let Some((op, _)) = first_op_sel(doc) else { return 0 };
+        if op.kind == OpKind::Subscription {
+            return 0;
+        }
+        let Some(rt) = schema.root(op.kind).and_then(|r| schema.type_def(r)) else { return 0 };
+        let mut cands: Vec<&FieldDef> = rt.fields.iter().filter(|f| ok_args(f) && schema.is_composite(f.ty.unwrapped())).collect();
+        rng.shuffle(&mut cands);
+        let take = 1 + rng.below(2);
+        let mut k = 0usize;
+        for (fi, f) in cands.into_iter().take(take).enumerate() {
+            let target = f.ty.unwrapped().to_string();
+            let poss = schema.possible_types(&target);
+            let mut ifaces: Vec<String> = schema.types().filter(|t| t.kind == TypeKind::Interface && schema.possible_types(&t.name).iter().any(|o| poss.contains(o))).map(|t| t.name.clone()).collect();
+            if ifaces.is_empty() {
+                continue;
+            }
+            rng.shuffle(&mut ifaces);
+            let mut sel = vec![Sel::field("__typename")];
+            for i in &ifaces {
+                let idef = schema.type_def(i).unwrap();
+                let leafs: Vec<&FieldDef> = idef.fields.iter().filter(|g| ok_args(g) && !schema.is_composite(g.ty.unwrapped())).collect();
+                let n_leaf = if leafs.is_empty() { 0 } else { 1 + rng.below(2) };
+                let mut inner: Vec<Sel> = vec![];
+                for _ in 0..n_leaf {
+                    let l = leafs[rng.below(leafs.len())];
+                    if !inner.iter().any(|s| s.response_key() == Some(l.name.as_str())) {
+                        inner.push(Sel::Field { alias: None, name: l.name.clone(), name_pos: P::default(), args: vec![], dirs: vec![], sel: None });
+                    }
+                }
+                if inner.is_empty() {
+                    inner.push(Sel::field("__typename"));
+                }
+                let mut s = if rng.chance(2, 5) {
+                    k += 1;
+                    let name = format!("InjI{k}");
+                    new_frags.push(FragDef { name: name.clone(), name_pos: P::default(), cond: i.clone(), cond_pos: P::default(), dirs: vec![], sel: inner, pos: P::default() });
+                    Sel::Spread { name, name_pos: P::default(), dirs: vec![], pos: P::default() }
+                } else {
+                    Sel::Inline { cond: Some((i.clone(), P::default())), dirs: vec![], sel: inner, pos: P::default() }
+                };
+                if rng.chance(1, 4) {
+                    let both: Vec<String> = schema.possible_types(i).into_iter().filter(|o| poss.contains(o)).collect();
+                    let o = both[rng.below(both.len())].clone();
+                    s = Sel::Inline { cond: Some((o, P::default())), dirs: vec![], sel: vec![s], pos: P::default() };
+                }
+                sel.push(s);
+                added += 1;
+            }
+            let key_used = op.sel.iter().any(|s| s.response_key() == Some(f.name.as_str()));
+            let alias = if key_used || rng.chance(1, 4) { Some((format!("injI{fi}"), P::default())) } else { None };
+            op.sel.push(Sel::Field { alias, name: f.name.clone(), name_pos: P::default(), args: vec![], dirs: vec![], sel: Some(sel) });
+        }
+    }
+    for f in new_frags {
+        let at = rng.below(doc.defs.len() + 1);
+        doc.defs.insert(at, ExecDef::Frag(f));
+    }
+    added
 }
 
 /// `injN: f { __typename: <leaf field> }` for an argument-less root field `f` of object type
@@ -1197,6 +1287,23 @@ pub fn main_for(property: &str, which: &'static str) {
             }
             if i < 3 {
                 r.rep.sample(json!({"doc": c.doc, "schema_files": c.sdl.len(), "sdl_bytes": c.sdl.iter().map(|s| s.len()).sum::<usize>()}));
+            }
+            batch.push(c);
+            if batch.len() >= 50 {
+                r.run(&batch, true);
+                batch.clear();
+            }
+        }
+        r.run(&batch, true);
+        // stream "interface hierarchies" (own random stream: the generated stream above is unchanged)
+        let mut rng = Rng::new(args.seed ^ 0x1FACE_C01);
+        let n = if search { 400 } else { args.budget(60, 500) };
+        let mut batch = vec![];
+        for _ in 0..n {
+            let c = gen_case_with(&mut rng, r.rep, true);
+            r.rep.count("origin:interface-hierarchy-stream");
+            if nontrivial(&c.doc) {
+                r.rep.nontrivial(&format!("{}\n{}", c.sdl.join("\n"), c.doc));
             }
             batch.push(c);
             if batch.len() >= 50 {
